@@ -872,7 +872,7 @@ impl Property for C03 {
 		300
 	}
 	fn cases(&self, tier: Tier) -> u64 {
-		tier.pick(30_000, 600_000)
+		tier.pick(80_000, 800_000)
 	}
 
 	fn enumerations(&self, tier: Tier) -> Vec<Enumeration> {
